@@ -24,6 +24,8 @@ fn dispatch(id: &str, ctx: &Ctx) -> Option<Report> {
         "C03" => mon::c03::run(ctx),
         "C09" => mon::c09::run(ctx),
         "C13" => mon::c13::run(ctx),
+        "C06" => mon::c06::run(ctx),
+        "C14" => mon::c14::run(ctx),
         _ => return None,
     })
 }
